@@ -99,7 +99,7 @@ def menu():
         add(o, ['0', '0,0', '', 'nan', '1,2,3', 'inf', '1e300,1e300', 'x'])
     for o in ('--skin-effect-conductivity', '--skin-effect-resistivity'):
         add(o, ['0', '-1', 'inf', 'nan', '1e300', '1e-300', '1e6,99', '1e6,1', '1e6,a', '1e6,1,2'])
-    add('--insulation-load', ['0.01,2', '0.0001,2', '0.01,0', '0.01,-1', '0.01,1', '0.01,nan', 'nan,2', 'inf,2', '0.01,2,99', '0.01,inf', '0.01', '0.01,2,1,1'])
+    add('--insulation-load', ['0.01,2', '0.0001,2', '0.01,0', '0.01,-1', '0.01,1', '0.01,nan', 'nan,2', 'inf,2', '0.01,2,99', '0.01,inf', '0.01', '0.01,2,1,1', '0,2', '0,2.3,1', '-0.01,2', '-0.01,2.3', '-0.01,3.2,1', '1e-9,2'])
     add('--medium', ['0,0,0', '0,0,5', '5,0,0', '0,5,0', '-1,1,0', 'nan,nan,0', '13,0.005,0', '13,0.005,0,0', '13,0.005,0,-5', '13,0.005,0,nan', '13,0.005,nan',
                      'inf,inf,0', '13,0.005', '1e300,1e300,0', '13,-0.005,0', 'a,b,c', '13,0.005,0,1,2'])
     add('--boundary', ['circular', 'linear', 'square'])
